@@ -29,7 +29,8 @@ RULE = ("case = one point of a union of complete sub-lattices; inside a case eve
 RULE_ADDED = ("Added later: spectrum deg0 (null-space cluster) and 'near' (caller-supplied degeneracy tolerances, b"
               'ackward twice on the retained graph), mixed batch (one degenerate, one separated element), basis {ro'
               'tated, identity, lowest / uppermost state decoupled}: operators in their own eigenbasis make the shi'
-              'fted systems of the implicit backward exactly singular.')
+              'fted systems of the implicit backward exactly singular. Round 4: opkind mfree_nd (first declared par'
+              'ameter does not require grad, a later one does).')
 ASSUMPTIONS = [
     "losses are gauge invariant and cluster complete; neig never cuts an exactly degenerate cluster",
     "second-order gradients at an exact degeneracy in degeneracy-breaking directions (P1, cluster inside the "
